@@ -288,11 +288,20 @@ class BaseSection(base.Sectionable):
         new_section = self.get_section_by_path(new_value)
         if self._link is not None:
             self.clean()
-        self._link = new_value
 
         # strict needs to be False, otherwise finalizing a document will
         # basically always fail.
-        self.merge(new_section, strict=False)
+        try:
+            self.merge(new_section, strict=False)
+        except Exception:
+            # The referenced Section cannot be merged (e.g. values that do not
+            # fit): the link is refused and the Section stays as it was. A
+            # previous link has been unresolved above; resolve it again.
+            if self._link is not None:
+                self.merge()
+            raise
+
+        self._link = new_value
 
     @property
     def definition(self):
